@@ -293,6 +293,15 @@ def impl(c):
             if 'centres_abs' in c: cen = list(c['centres_abs'])
             method = 'simps' if c['simps'] else 'trapz'
             wave_req = s.wave * f if req != c['unit'] else s.wave
+            if req != c['unit'] and len(cen) >= 2:
+                # converted wavelengths are not dyadic: keep every sample point of the bins away from the two ends of the data, where
+                # float64 and exact arithmetic could take different in-range/out-of-range decisions on a 1-ulp difference
+                lo_, hi_ = float(wave_req[0]), float(wave_req[-1])
+                for _ in range(4):
+                    mids = [(x + y) / 2 for x, y in zip(cen, cen[1:])]
+                    pts = cen + mids + [cen[0] - (cen[1] - cen[0]) / 2, cen[-1] + (cen[-1] - cen[-2]) / 2, (cen[0] + mids[0]) / 2, (cen[-1] + mids[-1]) / 2]
+                    if not any(abs(x - e) < 1e-9 * (hi_ - lo_) for x in pts for e in (lo_, hi_)): break
+                    cen = [x + (hi_ - lo_) * 2.0 ** -12 for x in cen]
             out = {'centres': cen, 'wave': [float(x) for x in wave_req]}
             before = _state(s)
             carr = np.array(cen).astype(np.int64) if c.get('cen_int') else np.array(cen)
